@@ -84,6 +84,7 @@ def storeStep (s : Store) (args : List String) : Store × String :=
       | .ok s' => (s', "ok")
       | .error e => (s, showErr e)
     | _, _ => (s, "bad-op")
+  | ["sleep", _] => (s, "ok")
   | "stats" :: rest =>
     match findInt "now" rest with
     | some now =>
